@@ -18,5 +18,11 @@ CHECKS = {
                      "transcript against the normative priority chain, and every emitted history is replayed in the real engine with the pre-edit text "
                      "compared after each event; bounded-exhaustive over the stated alphabet, not a proof",
                 note="class representatives; edge characters on which riti's tables and the Unicode chart differ are non-normative; TLC, harness executor, rustc trusted"),
+    "C13": dict(category=MC, design_ref="DESIGN.md 5 C13",
+                technique="TLC bounded model checking of ImplReph against PropRephSet (syllable grammar) + replay of every reph-ending history through the real engine",
+                text="TLC enumerates all histories to depth 5 (quick) / 6 (thorough; 38M states) over the 12 values the reph scan distinguishes x 8 settings, "
+                     "checks conservation for every reachable text and exact placement for every text matching the syllable grammar; every history ending in "
+                     "the reph key is replayed in the real engine and the pre-edit text compared after each event",
+                note="placement clause only for grammar-matching texts (statement: 'orthographically well-formed'); bounded depth; TLC, harness executor, rustc trusted"),
 }
 NOT_APPLICABLE = {}
